@@ -248,8 +248,11 @@ def run(ck):
     if ok:
         ids = {set_id(nw, tb[0].args[0]), set_id(nw, wf[0].args[0])}
         fld = dict(zip(agg[0]["rv"]["field_names"], agg[0]["rv"]["fields"]))
-        ids.add(set_id(nw, fld["mask"]))
-        ok = len(ids) == 1 and list(ids)[0][0] == "local"
+        if "mask" in fld:
+            ids.add(set_id(nw, fld["mask"]))
+            ok = len(ids) == 1 and list(ids)[0][0] == "local"
+        else:
+            ok = False  # the source no longer records its mask in a `mask` field: nothing to compare the blocked set with
     ck.verdict(ok, "3", "T6-provenance", nw, "block=signalfd=recorded-mask", "the set that is blocked, the set the signalfd is created with and the recorded mask are the same set", "Signals::new does not use one and the same set for the thread mask, the signalfd and its bookkeeping", site=nw.where())
     dr = ck.body("3", "<Signals as Drop>::drop")
     un = sigcalls(dr, "thread_unblock")
